@@ -75,10 +75,10 @@ CHECKS = {
         category="exploration",
         technique="property-based testing of generated parent/child launch scenarios and task-token callback streams on the real engine over a simulated broker and virtual clock, against a small expected-result model written from the property text (result shape, completion instant, cancellation, token acceptance)",
         text=("Hypothesis draws the integration form (startExecution, .sync, .sync:2, aws-sdk:sfn:startSyncExecution, invoke.waitForTaskToken, startExecution.waitForTaskToken), workflow types, child behaviour "
-              "(succeeds, two steps, task error, Fail state, blocked on a Wait / a Task / both inside a nested Parallel), parent shape (plain, Parallel with a failing or succeeding sibling, Map), parent time-out "
+              "(succeeds, two steps, task error, Fail state, blocked on a Wait / a Task (short or long form) / both inside a nested Parallel / two fan-out levels deep, failing inside a Parallel), parent shape (plain, Parallel with a failing or succeeding sibling, Map), parent time-out "
               "shorter or longer than the child, and the delivery schedule; for tokens it draws per attempt a stream of SendTaskSuccess/SendTaskFailure calls with valid, duplicate, earlier-attempt, other-execution, "
               "truncated, wrong-suffix, three-part, non-base64 and forged tokens and ordinary worker replies. The parent's result fields, the instant and handler step of completion, the absence of child progress after a cut, "
-              "HTTP answers and the final outcome of every execution are compared with the model."),
+              "HTTP answers (callbacks served by the launching or by a second instance), the acknowledgement order across a launch and the final outcome of every execution are compared with the model."),
         design_ref="DESIGN.md section 5 C15",
         note="Virtual time advances only when no delivery is enabled; ties between callbacks, deadlines and child ends are not generated. " + TRUST,
     ),
@@ -133,7 +133,7 @@ CHECKS = {
     "C02": dict(
         category="exploration",
         technique="property-based testing over generated machines x generated schedules with a lifecycle monitor evaluated after every scheduler step (notification sequence, record immutability and well-formedness, termination at quiescence)",
-        text=("The real engine stack runs 1-3 concurrent executions (API starts and raw start events with/without message ids) of generated machines on the simulated broker; Hypothesis chooses, step by step, "
+        text=("The real engine stack runs 1-3 concurrent executions (API starts and raw start events with/without message ids or with a client-chosen execution ARN; some runs continue past the expiry back stop, with or without the ended execution's stragglers held back) of generated machines on the simulated broker; Hypothesis chooses, step by step, "
               "which enabled delivery / timer expiry / clock advance happens next. After every step the monitor checks RUNNING -> exactly one terminal notification per execution, that a terminal record never "
               "changes and is well-formed, and at quiescence that every started execution is terminal."),
         design_ref="DESIGN.md section 5 C02",
@@ -183,7 +183,8 @@ CHECKS = {
               "strings with , ' \\ ( ) [ ] ^, Format placeholders and escaped braces), ill-formed variants and payload templates; each is evaluated by "
               "evaluate_payload_template and by an independent recursive-descent reference; values, failure kinds (IntrinsicFailure / path failure, never another exception), "
               "non-mutation, no reachability of interpreter internals and independence from PYTHONHASHSEED are checked; a slice runs through one-state executions to check the "
-              "States.IntrinsicFailure / States.Runtime mapping."),
+              "States.IntrinsicFailure / States.Runtime mapping, and a Map-state family checks that an ItemSelector is evaluated per item against the Map state's context in "
+              "every MaxConcurrency block and that a selector that cannot be evaluated fails the Map state cleanly (with and without a Catch)."),
         design_ref="DESIGN.md section 5 C13",
         note="Only the reference's verdicts are asserted; cases it marks unspecified (non-canonical base64, empty split segments, brace use outside Format, ...) are skipped and counted. " + TRUST,
     ),
